@@ -6,6 +6,8 @@ package main
 
 import (
 	"fmt"
+	"math/big"
+	"go/ast"
 	"go/constant"
 	"go/token"
 	"go/types"
@@ -103,6 +105,16 @@ func (x *Exec) safetyTags() []string {
 	return t
 }
 
+// notePtr records that a heap array holds references (for the entry-heap closure axiom).
+func (x *Exec) notePtr(name string, t types.Type) {
+	switch t.Underlying().(type) {
+	case *types.Pointer, *types.Map, *types.Chan:
+		x.ptrArrays[name] = "ptr"
+	case *types.Slice:
+		x.ptrArrays[name] = "slice"
+	}
+}
+
 // neverNil reports SSA values that are addresses by construction.
 func neverNil(v ssa.Value) bool {
 	switch v.(type) {
@@ -135,6 +147,7 @@ func (x *Exec) val(st *State, v ssa.Value) Val {
 		if isStruct(t) || isArray(t) {
 			return term(x.globalRef(c.Name()), SInt, c.Type())
 		}
+		x.notePtr("G."+c.Name(), t)
 		return Val{K: VFieldPtr, Field: "G." + c.Name(), Base: "0", ESort: sortOf(t), Ty: c.Type()}
 	case *ssa.Function:
 		return Val{K: VFunc, Fn: c, Ty: c.Type()}
@@ -487,6 +500,12 @@ func (x *Exec) step(st *State, ins ssa.Instruction) bool {
 	fr := st.top()
 	switch i := ins.(type) {
 	case *ssa.DebugRef:
+		if id, ok := i.Expr.(*ast.Ident); ok && id.Name != "_" {
+			if fr.names == nil {
+				fr.names = map[string]namedVal{}
+			}
+			fr.names[id.Name] = namedVal{i.X, i.IsAddr}
+		}
 		return true
 	case *ssa.Jump:
 		return x.gotoBlock(st, fr.block.Succs[0])
@@ -587,6 +606,7 @@ func (x *Exec) stepValue(st *State, ins ssa.Instruction, v ssa.Value) bool {
 			lf := x.locFnFor(tn, f.Name(), f.Type())
 			set(term(app(quote(lf.name), base.T), SInt, i.Type()))
 		} else {
+			x.notePtr(tn+"."+f.Name(), f.Type())
 			set(Val{K: VFieldPtr, Field: tn + "." + f.Name(), Base: base.T, ESort: sortOf(f.Type()), Ty: i.Type()})
 		}
 	case *ssa.Field:
@@ -895,6 +915,28 @@ func (x *Exec) binop(st *State, i *ssa.BinOp) {
 	}
 }
 
+// wrapConv models an integer conversion without div/mod: same-width sign changes are an ite,
+// narrowing conversions introduce the (unique) quotient k with r = v - k*2^n, r in range.
+func (x *Exec) wrapConv(st *State, dst, src types.Type, v string) Val {
+	dlo, dhi, _ := intRange(dst)
+	slo, shi, ok := intRange(src)
+	if ok {
+		dw := new(big.Int).Sub(dhi, dlo)
+		sw := new(big.Int).Sub(shi, slo)
+		if dw.Cmp(sw) == 0 {
+			r := x.namedNoFacts(st, term(wrapFrom(dst, src, v), SInt, dst), "conv")
+			st.assume(rangeFact(dst, r.T))
+			return r
+		}
+	}
+	m := new(big.Int).Add(new(big.Int).Sub(dhi, dlo), big.NewInt(1))
+	k := x.fresh("wrapk", SInt)
+	r := x.fresh("conv", SInt)
+	st.assume(eq(r, app("-", v, app("*", k, m.String()))))
+	st.assume(rangeFact(dst, r))
+	return term(r, SInt, dst)
+}
+
 func isStringT(t types.Type) bool {
 	b, ok := t.Underlying().(*types.Basic)
 	return ok && b.Info()&types.IsString != 0
@@ -923,9 +965,7 @@ func (x *Exec) convert(st *State, i *ssa.Convert) {
 		if rangeIncludes(dst, src) {
 			fr.vals[i] = term(a.T, SInt, dst)
 		} else {
-			r := x.namedNoFacts(st, term(wrapTo(dst, a.T), SInt, dst), "conv")
-			st.assume(rangeFact(dst, r.T))
-			fr.vals[i] = r
+			fr.vals[i] = x.wrapConv(st, dst, src, a.T)
 		}
 	case isStringT(src) && sortOf(dst) == SSlice:
 		// []byte(s): fresh backing array of the string's length
@@ -1231,6 +1271,34 @@ func (x *Exec) loopEnv(st *State, head *ssa.BasicBlock) *Env {
 				e.vars[name] = val
 			}
 		}
+	}
+	for name, nv := range fr.names {
+		if _, exists := e.vars[name]; exists {
+			continue
+		}
+		val, ok := fr.vals[nv.v]
+		if !ok {
+			if _, isConst := nv.v.(*ssa.Const); isConst {
+				val = x.val(st, nv.v)
+			} else if _, isGlobal := nv.v.(*ssa.Global); isGlobal {
+				continue
+			} else {
+				continue
+			}
+		}
+		if nv.isAddr {
+			pt, ok := nv.v.Type().Underlying().(*types.Pointer)
+			if !ok {
+				continue
+			}
+			if isStruct(pt.Elem()) || isArray(pt.Elem()) {
+				e.vars[name] = val
+			} else if val.K == VTerm || val.K == VFieldPtr {
+				e.vars[name] = x.loadNoName(st, val, pt.Elem())
+			}
+			continue
+		}
+		e.vars[name] = val
 	}
 	// cells captured/declared: free variables that are pointers to cells are exposed by content
 	for i, fv := range fr.fn.FreeVars {
